@@ -52,6 +52,9 @@ ASSUMPTIONS = [
     'the property, recorded as outcome only',
     'confirmations of a cached transaction are recomputed from the block count and are not compared',
     'getbalance adds up per-request answers; a falsy answer (None) counted as 0 is accepted',
+    'the cached per-address record (balance, n_utxos, n_txs as returned by getcacheaddressinfo) is inspected after '
+    'every query of the addr/bal history families for the addresses Y and W: a falsy balance / None counts as '
+    '"unknown", any other figure must be the provider chain\'s or a stored getbalance answer',
     'fake providers answer like the real clients do (getbalance([]) == 0, gettransactions/getutxos honour '
     'after_txid and limit, isspent answers 1/0)',
 ]
